@@ -769,7 +769,7 @@ class SceneMachine(Machine):
                   "b.recreate", "b.reject"]
         if spec.get("laser"):
             k += ["l.profile.set", "l.profile.set", "l.profile.polarize", "l.profile", "l.spectrum", "l.spectrum.set", "l.plasma",
-                  "l.importance", "l.integrator", "l.models", "l.transform", "l.parent", "l.recreate", "l.reassign", "l.unset"]
+                  "l.importance", "l.integrator", "l.models", "l.transform", "l.parent", "l.recreate", "l.reassign", "l.unset", "l.reject"]
         return k
 
     def _gen_mutator(self, rng, spec, kind, nprov):
@@ -879,6 +879,8 @@ class SceneMachine(Machine):
                 op["to"] = rng.choice(["frame", "world", "frame", "world", "none"])
             elif kind == "l.reassign":
                 op["what"] = rng.choice(["profile", "spectrum", "plasma"])
+            elif kind == "l.reject":
+                op["attr"], op["value"] = rng.choice([["importance", -1.0], ["importance", -0.5]])
         elif kind.startswith("b."):
             if not nb:
                 return None
@@ -1479,6 +1481,20 @@ class SceneMachine(Machine):
         elif k == "l.unset":
             l.laser_spectrum = None
             env.probe("prerequisite_unset")
+        elif k == "l.reject":
+            before = getattr(l, op["attr"])
+            env.fault_armed("reject")
+            try:
+                setattr(l, op["attr"], op["value"])
+            except ValueError:
+                env.fault_fired("reject")
+                if getattr(l, op["attr"]) != before:
+                    raise Violation("reject-changed-state", "laser." + op["attr"], "laser.%s = %r was refused but the laser now reports %r (was %r)" % (
+                        op["attr"], op["value"], getattr(l, op["attr"]), before))
+                return "raised"
+            # accepted (e.g. no emitting material to validate against): then it is the configuration
+            apply_spec(sp, {"op": "l.importance", "value": op["value"]})
+            return "raised"
         elif k == "l.spectrum.set":
             if ls["spectrum"] is None or op["attr"] not in ls["spectrum"]["spec"]:
                 return "noop"
